@@ -568,3 +568,29 @@ PROPS["C20"] = dict(
               "fields, map values, slice elements, behind pointers and inside untyped slots, round-tripped through CBOR under the tagged "
               "atlases; plus foreign CBOR carrying registered and unregistered tags on every item kind decoded into untyped slots",
 )
+
+def rule_untrusted(body, I, M):
+    i = I.get("I", "")
+    if _isdef(body, i):
+        return dict(corr_ok=True, prop_ok=True, nontrivial=False, bucket="def", why="")
+    if _bad_impl(i):
+        return dict(corr_ok=False, prop_ok=False, nontrivial=True, bucket="crash", why="implementation " + i)
+    corr_ok = (i == M.get("M")) and I.get("n") == M.get("n")
+    o = I.get("O", "ok")
+    prop_ok, why = (o == "ok"), ("oracle: " + o[:200] if o != "ok" else "")
+    if not corr_ok and not why:
+        why = "implementation and model differ"
+    return dict(corr_ok=corr_ok, prop_ok=prop_ok, nontrivial=(int(I.get("n", "0") or 0) >= 2), bucket=i, why=why)
+RULES["untrusted"] = rule_untrusted
+
+PROPS["C06"] = dict(
+    disabled=True, na_reason="model and correspondence tie built; theorems are being proved",
+    level="proof", lean_module="RefmtProofs.Props.C06", theorems=[],
+    streams=[dict(name="untrusted", gen="untrusted", rule="untrusted")],
+    title="decoding untrusted bytes never panics, hangs or over-allocates", claim="(work in progress)",
+    rule_text="random bytes, structure-biased and mutated/truncated CBOR and JSON documents, adversarial length headers (up to 2^64-1) on every "
+              "major type with and without data behind them and inside indefinite strings / nested containers, nesting 20000 deep, x 23 "
+              "target types (untyped, maps, slices, fixed arrays, structs, pointers, unions, tagged types, unmappable types) x 5 atlases, and "
+              "every decoder-to-encoder pairing; per call: recover, token-step count (cap 2n+2), runtime.MemStats.TotalAlloc with the GC off "
+              "(cap 2*32MiB + 1MiB + 16KiB*n); class and step count compared with the model",
+)
